@@ -22,7 +22,7 @@ def noLog : Nat → Bool := fun _ => false
 def svc : Svc := ⟨[.unary 1 false]⟩
 
 /-- witness 1: open `zz` (unknown, header-less), one tick, leave the `with` block; then a unary call -/
-def hist1 : List Call := [.stream noLog ⟨1, true, true, true⟩ false [.tick], .unary noLog ⟨0, true, true, true⟩]
+def hist1 : List Call := [.stream noLog ⟨1, true, true, false, true⟩ false [.tick], .unary noLog ⟨0, true, true, false, true⟩]
 
 theorem agree1 : Spec.AllAgree svc hist1 := by
   intro c hc
@@ -35,13 +35,13 @@ theorem not_synced : (runHist Gen.C04.shape svc hist1 St.init).1 ≠ St.init := 
 /-- the unary call that follows receives that stale error instead of its value -/
 theorem next_call_gets_stale_error :
     ((runHist Gen.C04.shape svc hist1 St.init).2.map fun o => o.outs.map (·.res)) = [[.opened, .error, .closed], [.error]]
-    ∧ (runCall Gen.C04.shape svc (.unary noLog ⟨0, true, true, true⟩) St.init).2.outs.map (·.res) = [.value] := by decide
+    ∧ (runCall Gen.C04.shape svc (.unary noLog ⟨0, true, true, false, true⟩) St.init).2.outs.map (·.res) = [.value] := by decide
 
 theorem full_sync_false : ¬ Spec.SyncAfterEveryCall Gen.C04.shape :=
   fun h => not_synced (h svc hist1 agree1)
 
 /-- witness 2: open `zz`, leave at once: the empty input stream is answered as a request; the next call gets that reply -/
-def hist2 : List Call := [.stream noLog ⟨1, true, true, true⟩ false [], .unary noLog ⟨0, true, true, true⟩]
+def hist2 : List Call := [.stream noLog ⟨1, true, true, false, true⟩ false [], .unary noLog ⟨0, true, true, false, true⟩]
 
 theorem close_only_also_desyncs :
     ((runHist Gen.C04.shape svc hist2 St.init).2.map fun o => o.outs.map (·.res)) = [[.opened, .closed], [.error]] := by decide
@@ -56,7 +56,7 @@ theorem close_only_killed_server_before :
 nothing follows, and the drain swallows the next request -/
 def naive : Gen.C04.Shape := { repaired with drainUnknown := true }
 
-def hist3 : List Call := [.unary noLog ⟨1, true, true, true⟩, .unary noLog ⟨0, true, true, true⟩]
+def hist3 : List Call := [.unary noLog ⟨1, true, true, false, true⟩, .unary noLog ⟨0, true, true, false, true⟩]
 
 theorem naive_repair_blocks :
     ((runHist naive svc hist3 St.init).2.map fun o => o.outs.map (·.blocked)) = [[false], [true]] := by decide
@@ -66,11 +66,22 @@ response is drained, a client that cannot decode it (Protocols differ) would lea
 next call would read it as its own (empty) response -/
 def lateDrain : Gen.C04.Shape := { repaired with unaryDrainBeforeDecode := false }
 
-def hist4 : List Call := [.unary noLog ⟨0, true, true, false⟩, .unary noLog ⟨0, true, true, true⟩]
+def hist4 : List Call := [.unary noLog ⟨0, true, true, false, false⟩, .unary noLog ⟨0, true, true, false, true⟩]
 
 theorem decode_failure_needs_early_drain :
     (runHist lateDrain svc hist4 St.init).1 ≠ St.init ∧
     ((runHist lateDrain svc hist4 St.init).2.map fun o => o.outs.map (·.res)) = [[.raised], [.transport]] ∧
     ((runHist repaired svc hist4 St.init).2.map fun o => o.outs.map (·.res)) = [[.raised], [.value]] := by decide
+
+/-- the argument conversion must happen before the request's IPC stream is opened: otherwise a client-side conversion error
+unwinds through the writer and leaves a batch-less request on the wire; the server answers it, and the next call reads that
+answer as its own -/
+def lateConversion : Gen.C04.Shape := { repaired with requestBuiltBeforeStream := false }
+
+def hist5 : List Call := [.unary noLog ⟨0, true, true, true, true⟩, .unary noLog ⟨0, true, true, false, true⟩]
+
+theorem client_rejection_must_write_nothing :
+    ((runHist lateConversion svc hist5 St.init).2.map fun o => o.outs.map (·.res)) = [[.raised], [.error]] ∧
+    ((runHist repaired svc hist5 St.init).2.map fun o => o.outs.map (·.res)) = [[.raised], [.value]] := by decide
 
 end VgiVerif.C04.Findings
